@@ -35,6 +35,65 @@ theorem set_child_value_eq (c t : Int) (p : Str) (n : Node) :
       | some ch => .ok { n with children := n.children.set c { ch with values := ch.values.set t p } } := by
   cases h : n.children.get? c <;> simp [GenBodies.Node.set_child_value, h]
 
+theorem outPresentation14_eq : GenBodies.outPresentation14 = fun m _ => transportWrite (encode m) := rfl
+theorem outReq14_eq : GenBodies.outReq14 = fun m _ => transportWrite (encode m) := rfl
+theorem outInternal14_eq : GenBodies.outInternal14 = fun m _ => transportWrite (encode m) := rfl
+theorem outStream14_eq : GenBodies.outStream14 = fun m _ => transportWrite (encode m) := rfl
+
+/-- `Gateway.send` after the dump = the generated outgoing handler of the active protocol. -/
+theorem gwSend'_eq : GenBodies.gwSend' = gwSend := by
+  funext m b w
+  simp only [GenBodies.gwSend', gwSend, M.bind, M.getSt]
+  cases h : (Gen.outgoingHandlers w.st.proto).lookup m.cmd with
+  | none => rfl
+  | some o =>
+    cases o with
+    | none => rfl
+    | some ob =>
+      cases ob with
+      | direct => rfl
+      | set14 =>
+        simp only [GenBodies.outBody, GenBodies.outSet14]
+        cases hn : w.st.nodes.get? m.node with
+        | none => simp [hn]
+        | some node => cases b <;> cases hs : node.sleeping <;> simp [hn, hs, Msg.key]
+
+theorem apiSendGen_eq (obj : Option Msg) (b : Bool) : GenBodies.apiSendGen obj b = apiSend obj b := by
+  cases obj with
+  | none => rfl
+  | some m => exact congrFun (congrFun gwSend'_eq m) b
+
+attribute [local simp] gwSend'_eq
+
+
+/-! ### the sleep buffer: release loop and the outgoing handlers -/
+
+theorem forEach_flushList (l : List (Key × Msg)) :
+    (Lit.forEach l fun kb =>
+      seq (gwSend kb.2 false)
+        (bind (Lit.sbufHolds kb.1 kb.2) fun c => if c then Lit.sbufPop kb.1 else pure ())) = flushList l := by
+  induction l with
+  | nil => rfl
+  | cons x xs ih =>
+    obtain ⟨k, bm⟩ := x
+    simp only [Lit.forEach, flushList, ih]
+    funext w
+    simp only [M.seq, M.bind, Gen.bufFlush]
+    obtain ⟨r, w'⟩ := gwSend bm false w
+    cases r with
+    | error e => rfl
+    | ok u =>
+      by_cases h : w'.st.sbuf.get? k = some bm
+      · simp [h]
+      · simp [h]
+
+theorem sleepBuffer20_eq : GenBodies.sleepBuffer20 = flush := by
+  funext m w
+  simp only [GenBodies.sleepBuffer20, flush, Lit.sbufSnapshot, gwSend'_eq, forEach_flushList]
+  simp
+
+attribute [local simp] sleepBuffer20_eq
+
 /-! ### report handlers of `protocol_14` -/
 
 theorem set14_eq : GenBodies.set14 = hSet := by
@@ -153,46 +212,6 @@ theorem iVersion14_eq : GenBodies.iVersion14 = hVersion := by
     cases hc : pyCaught c [.AwesomeVersionException, .ValueError, .IndexError] <;>
       simp [GenBodies.iVersion14, hVersion, setProtocolVersion_eq, Lit.catchTo, M.tryCatch, convertExn, hcl, h, hc]
 
-/-! ### command-level bodies -/
-
-theorem bind_pure (x : M α) : (bind x fun a => pure a) = x := by
-  funext w
-  simp only [M.bind, M.pure]
-  cases h : x w with
-  | mk r w' => cases r <;> rfl
-
-theorem presentation14_eq (env : Env) (v : Ver) : GenBodies.presentation14 env v = hPresentation env v := by
-  funext m w
-  by_cases hc : m.child = 255
-  · by_cases h0 : m.node = 0
-    · simp [GenBodies.presentation14, hPresentation, hc, h0]
-      generalize runTyped env (Gen.versionHandlerChain v) m _ = r
-      obtain ⟨r, w'⟩ := r
-      cases r <;> rfl
-    · simp [GenBodies.presentation14, hPresentation, hc, h0]
-  · cases h : w.st.nodes.get? m.node <;> simp [GenBodies.presentation14, hPresentation, hc, h, add_child_eq]
-
-/-- The type gate reads the active protocol object; `dispatch` runs the handler class of that same
-protocol, hence the hypothesis. -/
-theorem internal14_eq (env : Env) (v : Ver) (m : Msg) (w : W) (hv : w.st.proto = v) :
-    GenBodies.internal14 env v m w = hInternal env v m w := by
-  have hc : pyCaught .ValueError [.ValueError] = true := by decide
-  cases h : (Gen.internalTypes v).lookup m.type <;>
-    simp [GenBodies.internal14, hInternal, Lit.catchTo, Lit.enumMember, M.tryCatch, hv, h, hc]
-
-theorem stream14_eq (env : Env) (v : Ver) (m : Msg) (w : W) (hv : w.st.proto = v) :
-    GenBodies.stream14 env v m w = hStream env v m w := by
-  have hc : pyCaught .ValueError [.ValueError] = true := by decide
-  cases hn : w.st.nodes.get? m.node with
-  | none => simp [GenBodies.stream14, hStream, hn]
-  | some node =>
-    cases h : (Gen.streamTypes v).lookup m.type <;>
-      simp [GenBodies.stream14, hStream, Lit.catchTo, Lit.enumMember, M.tryCatch, hv, h, hc, hn]
-
-theorem presentation20_eq : GenBodies.presentation20 = prePresentation20 := by
-  funext m w
-  cases h : w.st.ibuf.get? (m.node, m.child, 19) <;> simp [GenBodies.presentation20, prePresentation20, h]
-
 /-! ### the two decorators -/
 
 theorem wants_eq (m : Msg) :
@@ -232,65 +251,9 @@ theorem wrapMissingNC_eq : GenBodies.wrapMissingNC = wrapMissingNC := by
     obtain ⟨r, w'⟩ := r
     cases r <;> rfl
 
-/-! ### the sleep buffer: release loop and the outgoing handlers -/
-
-theorem forEach_flushList (l : List (Key × Msg)) :
-    (Lit.forEach l fun kb =>
-      seq (gwSend kb.2 false)
-        (bind (Lit.sbufHolds kb.1 kb.2) fun c => if c then Lit.sbufPop kb.1 else pure ())) = flushList l := by
-  induction l with
-  | nil => rfl
-  | cons x xs ih =>
-    obtain ⟨k, bm⟩ := x
-    simp only [Lit.forEach, flushList, ih]
-    funext w
-    simp only [M.seq, M.bind, Gen.bufFlush]
-    obtain ⟨r, w'⟩ := gwSend bm false w
-    cases r with
-    | error e => rfl
-    | ok u =>
-      by_cases h : w'.st.sbuf.get? k = some bm
-      · simp [h]
-      · simp [h]
-
-theorem sleepBuffer20_eq : GenBodies.sleepBuffer20 = flush := by
+theorem presentation20_eq : GenBodies.presentation20 = prePresentation20 := by
   funext m w
-  simp only [GenBodies.sleepBuffer20, flush, Lit.sbufSnapshot, forEach_flushList]
-  simp
-
-theorem outPresentation14_eq : GenBodies.outPresentation14 = fun m _ => transportWrite (encode m) := rfl
-theorem outReq14_eq : GenBodies.outReq14 = fun m _ => transportWrite (encode m) := rfl
-theorem outInternal14_eq : GenBodies.outInternal14 = fun m _ => transportWrite (encode m) := rfl
-theorem outStream14_eq : GenBodies.outStream14 = fun m _ => transportWrite (encode m) := rfl
-
-/-- The generated outgoing handler for a body of the outgoing table (`extract.py` names `direct` the
-four handlers whose generated text is checked above to be a plain write). -/
-def outBody : OutBody → Msg → Bool → M Unit
-  | .direct => GenBodies.outInternal14
-  | .set14 => GenBodies.outSet14
-
-/-- `Gateway.send` after the dump = the generated outgoing handler of the active protocol. -/
-theorem gwSend_eq (m : Msg) (b : Bool) :
-    gwSend m b = bind getSt fun st =>
-      match (Gen.outgoingHandlers st.proto).lookup m.cmd with
-      | none => raise (.foreign .ValueError)
-      | some none => raise (.foreign .AttributeError)
-      | some (some ob) => outBody ob m b := by
-  funext w
-  simp only [gwSend, M.bind, M.getSt]
-  cases h : (Gen.outgoingHandlers w.st.proto).lookup m.cmd with
-  | none => rfl
-  | some o =>
-    cases o with
-    | none => rfl
-    | some ob =>
-      cases ob with
-      | direct => rfl
-      | set14 =>
-        simp only [outBody, GenBodies.outSet14]
-        cases hn : w.st.nodes.get? m.node with
-        | none => simp [hn]
-        | some node => cases b <;> cases hs : node.sleeping <;> simp [hn, hs, Msg.key]
+  cases h : w.st.ibuf.get? (m.node, m.child, 19) <;> simp [GenBodies.presentation20, prePresentation20, h]
 
 /-! ### the whole receive path assembled from the generated bodies
 
@@ -299,65 +262,73 @@ translator produced from the Python on this run; what remains hand-written is th
 tables drive (`applyLayers`, `dispatch`, `runTyped`) and the codec.  `recvGen_eq` shows it is the `recv` of
 `Model/Handlers.lean`, so every theorem about `recv` is a theorem about the translated code. -/
 
-def leafGen (env : Env) : Body → Option (Msg → M Msg)
-  | .iVersion14 => some GenBodies.iVersion14
-  | .iIdRequest14 => some GenBodies.iIdRequest14
-  | .iConfig14 => some (GenBodies.iConfig14 env)
-  | .iTime14 => some (GenBodies.iTime14 env)
-  | .iBatteryLevel14 => some GenBodies.iBatteryLevel14
-  | .iSketchName14 => some GenBodies.iSketchName14
-  | .iSketchVersion14 => some GenBodies.iSketchVersion14
-  | .iGatewayReady20 => some GenBodies.iGatewayReady20
-  | .iDiscoverResponse20 => some GenBodies.iDiscoverResponse20
-  | .iHeartbeatResponse20 => some GenBodies.iHeartbeatResponse20
-  | .iHeartbeatResponse22 => some GenBodies.iHeartbeatResponse22
-  | .iPreSleepNotification22 => some GenBodies.iPreSleepNotification22
-  | .set14 => some GenBodies.set14
-  | .req14 => some GenBodies.req14
-  | _ => none
-
-theorem leafGen_eq (env : Env) (b : Body) : leafGen env b = runLeaf env b := by
-  cases b <;> simp only [leafGen, runLeaf, iVersion14_eq, iIdRequest14_eq, iConfig14_eq, iTime14_eq, iBatteryLevel14_eq,
+theorem leafGen_eq (env : Env) (b : Body) : GenBodies.leafGen env b = runLeaf env b := by
+  cases b <;> simp only [GenBodies.leafGen, runLeaf, iVersion14_eq, iIdRequest14_eq, iConfig14_eq, iTime14_eq, iBatteryLevel14_eq,
     iSketchName14_eq, iSketchVersion14_eq, iGatewayReady20_eq, iDiscoverResponse20_eq, iHeartbeatResponse20_eq,
     iHeartbeatResponse22_eq, iPreSleepNotification22_eq, set14_eq, req14_eq]
 
-def preGen : Body → Msg → M Unit
-  | .presentation20 => GenBodies.presentation20
-  | _ => fun _ => raise (.foreign .RuntimeError)
-
-theorem preGen_eq (b : Body) : preGen b = runPre b := by
-  cases b <;> simp only [preGen, runPre, presentation20_eq]
-
-def applyLayersGen (layers : List Layer) (base : Msg → M Msg) : Msg → M Msg :=
-  match layers with
-  | [] => base
-  | .wrap .missingPV :: ls => GenBodies.wrapMissingPV (applyLayersGen ls base)
-  | .wrap .missingNC :: ls => GenBodies.wrapMissingNC (applyLayersGen ls base)
-  | .pre b :: ls => fun m => seq (preGen b m) (applyLayersGen ls base m)
+theorem preGen_eq (b : Body) : GenBodies.preGen b = runPre b := by
+  cases b <;> simp only [GenBodies.preGen, runPre, presentation20_eq]
 
 theorem applyLayersGen_eq (layers : List Layer) (base : Msg → M Msg) :
-    applyLayersGen layers base = applyLayers layers base := by
+    GenBodies.applyLayersGen layers base = applyLayers layers base := by
   induction layers with
   | nil => rfl
   | cons l ls ih =>
     cases l with
-    | wrap w => cases w <;> simp only [applyLayersGen, applyLayers, ih, wrapMissingPV_eq, wrapMissingNC_eq]
-    | pre b => simp only [applyLayersGen, applyLayers, ih, preGen_eq]
+    | wrap w => cases w <;> simp only [GenBodies.applyLayersGen, applyLayers, ih, wrapMissingPV_eq, wrapMissingNC_eq]
+    | pre b => simp only [GenBodies.applyLayersGen, applyLayers, ih, preGen_eq]
 
-def baseGen (env : Env) (v : Ver) : Body → Msg → M Msg
-  | .presentation14 => GenBodies.presentation14 env v
-  | .internal14 => GenBodies.internal14 env v
-  | .stream14 => GenBodies.stream14 env v
-  | b => match leafGen env b with
-    | some f => f
-    | none => fun _ => raise (.foreign .RuntimeError)
+theorem runTypedGen_eq : GenBodies.runTypedGen = runTyped := by
+  funext env ch
+  cases ch with
+  | none => rfl
+  | some ch => simp only [GenBodies.runTypedGen, runTyped, GenBodies.runInnerGen, runInner, leafGen_eq, applyLayersGen_eq]; rfl
+
+attribute [local simp] runTypedGen_eq
+
+/-! ### command-level bodies -/
+
+theorem bind_pure (x : M α) : (bind x fun a => pure a) = x := by
+  funext w
+  simp only [M.bind, M.pure]
+  cases h : x w with
+  | mk r w' => cases r <;> rfl
+
+theorem presentation14_eq (env : Env) (v : Ver) : GenBodies.presentation14 env v = hPresentation env v := by
+  funext m w
+  by_cases hc : m.child = 255
+  · by_cases h0 : m.node = 0
+    · simp [GenBodies.presentation14, hPresentation, hc, h0]
+      generalize runTyped env (Gen.versionHandlerChain v) m _ = r
+      obtain ⟨r, w'⟩ := r
+      cases r <;> rfl
+    · simp [GenBodies.presentation14, hPresentation, hc, h0]
+  · cases h : w.st.nodes.get? m.node <;> simp [GenBodies.presentation14, hPresentation, hc, h, add_child_eq]
+
+/-- The type gate reads the active protocol object; `dispatch` runs the handler class of that same
+protocol, hence the hypothesis. -/
+theorem internal14_eq (env : Env) (v : Ver) (m : Msg) (w : W) (hv : w.st.proto = v) :
+    GenBodies.internal14 env v m w = hInternal env v m w := by
+  have hc : pyCaught .ValueError [.ValueError] = true := by decide
+  cases h : (Gen.internalTypes v).lookup m.type <;>
+    simp [GenBodies.internal14, hInternal, Lit.catchTo, Lit.enumMember, M.tryCatch, hv, h, hc]
+
+theorem stream14_eq (env : Env) (v : Ver) (m : Msg) (w : W) (hv : w.st.proto = v) :
+    GenBodies.stream14 env v m w = hStream env v m w := by
+  have hc : pyCaught .ValueError [.ValueError] = true := by decide
+  cases hn : w.st.nodes.get? m.node with
+  | none => simp [GenBodies.stream14, hStream, hn]
+  | some node =>
+    cases h : (Gen.streamTypes v).lookup m.type <;>
+      simp [GenBodies.stream14, hStream, Lit.catchTo, Lit.enumMember, M.tryCatch, hv, h, hc, hn]
 
 theorem baseGen_eq (env : Env) (v : Ver) (b : Body) (m : Msg) (w : W) (hv : w.st.proto = v) :
-    baseGen env v b m w = runBase env v b m w := by
+    GenBodies.baseGen env v b m w = runBase env v b m w := by
   cases b <;> first
     | rfl
-    | (simp only [baseGen, runBase, leafGen_eq, presentation14_eq, internal14_eq env v m w hv, stream14_eq env v m w hv]; done)
-    | (simp only [baseGen, runBase, leafGen_eq]; rfl)
+    | (simp only [GenBodies.baseGen, runBase, leafGen_eq, presentation14_eq, internal14_eq env v m w hv, stream14_eq env v m w hv]; done)
+    | (simp only [GenBodies.baseGen, runBase, leafGen_eq]; rfl)
 
 /-- Two command-level bodies that agree wherever the active protocol is `v` still agree under any stack of
 layers: the decorators run the wrapped body first, in the world they were entered with, and the only
@@ -386,30 +357,18 @@ theorem applyLayers_congr (v : Ver) (f g : Msg → M Msg) (hfg : ∀ m w, w.st.p
           | ok u => exact ih m w' hp
           | error e => rfl
 
-def dispatchGen (env : Env) (v : Ver) (m : Msg) : M Msg :=
-  match (Gen.commandChains v).lookup m.cmd with
-  | none => raise (.foreign .ValueError)
-  | some ch => applyLayersGen ch.layers (baseGen env v ch.base) m
-
 theorem dispatchGen_eq (env : Env) (v : Ver) (m : Msg) (w : W) (hv : w.st.proto = v) :
-    dispatchGen env v m w = dispatch env v m w := by
-  simp only [dispatchGen, dispatch]
+    GenBodies.dispatchGen env v m w = dispatch env v m w := by
+  simp only [GenBodies.dispatchGen, dispatch]
   cases (Gen.commandChains v).lookup m.cmd with
   | none => rfl
   | some ch =>
     simp only [applyLayersGen_eq]
     exact applyLayers_congr v _ _ (fun m w h => baseGen_eq env v ch.base m w h) ch.layers m w hv
 
-/-- One iteration of `Gateway.listen`, with every body taken from the translation. -/
-def recvGen (env : Env) (line : Str) : M Msg :=
-  bind getSt fun st =>
-  match decode st.proto line with
-  | none => raise (.lib .invalidMessage)
-  | some m => dispatchGen env st.proto m
-
-theorem recvGen_eq (env : Env) (line : Str) : recvGen env line = recv env line := by
+theorem recvGen_eq (env : Env) (line : Str) : GenBodies.recvGen env line = recv env line := by
   funext w
-  simp only [recvGen, recv, M.bind, M.getSt]
+  simp only [GenBodies.recvGen, recv, M.bind, M.getSt]
   cases decode w.st.proto line with
   | none => rfl
   | some m => exact dispatchGen_eq env w.st.proto m w rfl
